@@ -148,7 +148,8 @@ def bounded_descendants(tier, seed):
             'label': 'bounded'}
 
 
-BOUNDED = [bounded_descendants]
+from contracts import extra as _extra
+BOUNDED = [bounded_descendants, _extra.bounded_from_text]
 NATIVE = {
     'mutation._apply_for_each': C12.NATIVE['mutation._apply_for_each'],
 }
